@@ -188,6 +188,40 @@ def run(ctx):
                             'and the word-wise validity kernels then shift every row\'s NULL flag')
         ctx.extra['bitmap_copy_sites'] = n_copy
 
+    # R11: aggregates are not constants
+    R11 = 'C14-R11'
+    AGGS = ('Max', 'Min', 'Avg', 'Sum', 'Count', 'CountDistinct', 'RowCount', 'First', 'Last', 'Over', 'RowNumber')
+    ctx.rule(R11, 'constant folding never gives an aggregate a constant value: eval_constant has no arm for ' + ', '.join(AGGS) +
+                  ' (max(c) over an empty input is NULL, not c; and a folded aggregate is no longer an aggregation for the executor)')
+    if ctx.anchor(R11, 'planner::rules::expr::eval_constant', ec is not None):
+        hit = set()
+        for bl in ec.blocks:
+            t = bl['term']
+            if t['k'] == 'switch' and t.get('adt') == 'planner::Expr':
+                names = t.get('variants', {})
+                hit |= {names.get(str(v)) for v, tgt in t['targets'] if tgt != t.get('otherwise')}
+        bad = sorted(set(AGGS) & hit)
+        ctx.ob(R11, 'eval_constant·no-aggregate-arm', not bad, f'eval_constant matches on {sorted(x for x in hit if x)}; aggregates among them: {bad}',
+               [ec.loc],
+               what=f'eval_constant folds {bad} of a constant to that constant: `select max(1) from a where x > 100` should be NULL and '
+                    'panics in the evaluator ("not aggregation: 1")')
+
+    # R12: LIKE literal characters
+    R12 = 'C14-R12'
+    ctx.rule(R12, 'LIKE is evaluated through a regex: in the translation (like_to_regex) only `%` and `_` become regex syntax; every other '
+                  'character of the pattern goes through regex::escape, never into the regex as it is (a raw `String::push` of a pattern '
+                  'character makes `.`, `(`, `+`, `[` ... wildcards or a syntax error)')
+    lk = [b_ for n, b_ in prog.bodies.items() if re.search(r'ArrayImpl>::like::like_to_regex$', n)]
+    if ctx.anchor(R12, 'ArrayImpl::like::like_to_regex', lk):
+        lb = lk[0]
+        ctx.functions_analysed.add(lb.name)
+        esc = [c for c in lb.calls if (c.fn or '').endswith('regex::escape')]
+        raw = [c for c in lb.calls if re.search(r'String::push$', c.fn or '') and len(c.args) > 1 and c.args[1]['k'] != 'const']
+        ctx.ob(R12, 'like_to_regex·literals-escaped', bool(esc) and not raw,
+               f'regex::escape calls: {len(esc)}; raw pushes of a pattern character: {[c.bb for c in raw]}', [site(lb, c.bb) for c in (raw or esc)] or [lb.loc],
+               what='LIKE copies the pattern\'s literal characters into the regex unescaped: `\'abc\' like \'a.c\'` is true and `like \'a(c\'` '
+                    'panics on an invalid regex')
+
     R5 = 'C14-R5'
     ctx.rule(R5, 'ArrayImpl::cast: numeric narrowing never uses a truncating/saturating `as` cast (IntToInt to a narrower '
                  'type, FloatToInt); out-of-range values must go through a checked conversion that yields ConvertError::Overflow')
